@@ -528,6 +528,44 @@ func (c *Ctx) chunkScanRule(rule string, fns []*ssa.Function) int {
 			}
 			n++
 			construct := load.FuncName(f) + ":scan in steps of " + fmt.Sprint(step)
+			if bo.Op == token.LEQ && off == step && step > 1 {
+				// i+k <= len(x): every whole chunk is looked at; the len % k bytes behind the last whole chunk are not,
+				// unless the counter is used behind the loop for them or the length is known to be a multiple of k
+				tail := false
+				var exit *ssa.BasicBlock
+				for _, sb := range L.Header.Succs {
+					if !L.Body[sb] {
+						exit = sb
+					}
+				}
+				for _, r := range nonDebugRefs(cur) {
+					// behind the loop = dominated by the block the exit test leaves to (an error return from inside the
+					// body that mentions the counter is not a treatment of the rest)
+					if exit != nil && !L.Body[r.Block()] && exit.Dominates(r.Block()) {
+						tail = true
+					}
+				}
+				multiple := false
+				if n0 := minLenExact(coll); n0 >= 0 && n0%step == 0 {
+					multiple = true
+				}
+				for _, cf := range dominatingConds(L.Header) {
+					if rb, ok := cf.Cond.(*ssa.BinOp); ok && (rb.Op == token.EQL || rb.Op == token.NEQ) {
+						if rem, ok := stripConv(rb.X).(*ssa.BinOp); ok && rem.Op == token.REM {
+							if a, ok := lenArg(stripConv(rem.X)); ok && sameColl(a, coll) {
+								if k, ok := constInt(rem.Y); ok && k%step == 0 {
+									if z, ok := constInt(rb.Y); ok && z == 0 && (rb.Op == token.EQL) == cf.Val {
+										multiple = true
+									}
+								}
+							}
+						}
+					}
+				}
+				c.S.Check(tail || multiple, rule, construct, c.pos(iff.Cond.Pos()), "whole chunks only, and the length is a multiple of the step (or the rest is handled behind the loop)",
+					fmt.Sprintf("the loop looks at the slice in whole chunks of %d (i+%d <= len): the len %% %d bytes behind the last whole chunk are never examined, and nothing makes the length a multiple of %d or deals with the rest behind the loop", step, off, step, step))
+				continue
+			}
 			if bo.Op != token.LSS || off != step {
 				c.S.OK(rule, construct, c.pos(iff.Cond.Pos()), "the exit test covers the last chunk", false)
 				continue
@@ -624,4 +662,44 @@ func (c *Ctx) partitionRemainderRule(rule string, fns []*ssa.Function) int {
 		}
 	}
 	return n
+}
+
+// minLenExact: the exact constant length of a slice made from an array or by a constant make / constant re-slice
+// (-1 if not known).
+func minLenExact(x ssa.Value) int64 {
+	switch y := x.(type) {
+	case *ssa.Slice:
+		if pt, ok := y.X.Type().Underlying().(*types.Pointer); ok {
+			if at, ok := pt.Elem().Underlying().(*types.Array); ok {
+				lo, hi := int64(0), at.Len()
+				if y.Low != nil {
+					k, ok := constInt(y.Low)
+					if !ok {
+						return -1
+					}
+					lo = k
+				}
+				if y.High != nil {
+					k, ok := constInt(y.High)
+					if !ok {
+						return -1
+					}
+					hi = k
+				}
+				return hi - lo
+			}
+		}
+		if y.Low != nil && y.High != nil {
+			lo, ok1 := constInt(y.Low)
+			hi, ok2 := constInt(y.High)
+			if ok1 && ok2 {
+				return hi - lo
+			}
+		}
+	case *ssa.MakeSlice:
+		if k, ok := constInt(y.Len); ok {
+			return k
+		}
+	}
+	return -1
 }
